@@ -506,7 +506,9 @@ class Array(Generic[T], Collection):
     size: int
 
     def __init__(self, child, size: int, contained_type: T = None):
-        if size is not None and (not isinstance(size, int) or size < 1):
+        if size is not None and (
+            not isinstance(size, int) or isinstance(size, bool) or size < 1
+        ):
             raise ValueError(f"Array size must be a positive integer, got {size!r}")
         if size is None and child is not None and contained_type is None:
             # Only parameter templates and arrays derived from them have no size.
